@@ -18,6 +18,34 @@ fn in_async(prog: &Prog, top: Kind, e: &RefEv) -> bool {
 
 /// Per (concurrent invocation instance, step): the per-branch event lists in reference order.
 pub fn concurrent_groups<'a>(prog: &Prog, top: Kind, r: &'a RefRun) -> Vec<Vec<Vec<&'a RefEv>>> {
+    concurrent_groups_keyed(prog, top, r).into_iter().map(|(_, g)| g).collect()
+}
+
+/// A random antichain (no group nested inside another chosen one) of the concurrent groups:
+/// edges drawn independently for a group and for a group nested in one of its branches could
+/// otherwise contradict each other (two different linear extensions) and form a cycle.
+pub fn antichain_groups<'a>(prog: &Prog, top: Kind, r: &'a RefRun, rng: &mut Rng) -> Vec<Vec<Vec<&'a RefEv>>> {
+    let mut all = concurrent_groups_keyed(prog, top, r);
+    rng.shuffle(&mut all);
+    let mut chosen: Vec<(Vec<u32>, Vec<Vec<&RefEv>>)> = Vec::new();
+    for (k, g) in all {
+        // key = instance path (inv, inst, branch, step, inv, inst, ...) + [step]; nesting = strict prefix of the instance path
+        let path = &k[..k.len() - 1];
+        let related = chosen.iter().any(|(ck, _)| {
+            let cp = &ck[..ck.len() - 1];
+            (cp.len() < path.len() && path.starts_with(cp) && path[cp.len()..].len() >= 2 && {
+                // same step of the outer instance?
+                path[cp.len() + 1] == ck[ck.len() - 1]
+            }) || (path.len() < cp.len() && cp.starts_with(path) && cp[path.len() + 1] == k[k.len() - 1])
+        });
+        if !related {
+            chosen.push((k, g));
+        }
+    }
+    chosen.into_iter().map(|(_, g)| g).collect()
+}
+
+pub fn concurrent_groups_keyed<'a>(prog: &Prog, top: Kind, r: &'a RefRun) -> Vec<(Vec<u32>, Vec<Vec<&'a RefEv>>)> {
     let mut groups: BTreeMap<(Vec<u32>, u32), BTreeMap<u32, Vec<&RefEv>>> = BTreeMap::new();
     for e in r.events.iter() {
         let mut key: Vec<u32> = Vec::new();
@@ -32,9 +60,12 @@ pub fn concurrent_groups<'a>(prog: &Prog, top: Kind, r: &'a RefRun) -> Vec<Vec<V
         }
     }
     groups
-        .into_values()
-        .map(|m| m.into_values().collect::<Vec<_>>())
-        .filter(|bs: &Vec<Vec<&RefEv>>| bs.len() >= 2)
+        .into_iter()
+        .map(|((mut k, step), m)| {
+            k.push(step);
+            (k, m.into_values().collect::<Vec<_>>())
+        })
+        .filter(|(_, bs): &(Vec<u32>, Vec<Vec<&RefEv>>)| bs.len() >= 2)
         .collect()
 }
 
@@ -69,7 +100,7 @@ fn unreachable_after_panic(r_panic: Option<&RefEv>, e: &RefEv) -> bool {
 /// implementation that runs the step's branches independently can satisfy them.
 pub fn linear_extension_deps(prog: &Prog, top: Kind, r: &RefRun, panic_at: Option<&RefEv>, rng: &mut Rng, density_pct: u64) -> Vec<Dep> {
     let mut deps = Vec::new();
-    for branches in concurrent_groups(prog, top, r) {
+    for branches in antichain_groups(prog, top, r, rng) {
         // random merge
         let mut idx: Vec<usize> = vec![0; branches.len()];
         let mut order: Vec<(usize, &RefEv)> = Vec::new();
